@@ -31,6 +31,8 @@ CONSTANTS DevSets,   \* sets of deviations to explore: {{}} = intended design on
                      \*   dv: how the Encrypt dictionary spells entries that do not matter for this V/R:
                      \*   plain | len40 len64 nolen (a top-level /Length that only V 2/3 give a meaning to, or none)
                      \*   | alt (crypt filter named other than StdCF, /CF /Length in bits, /EncryptMetadata written out)
+                     \*   | below V 4: emfalse emtrue (an /EncryptMetadata entry, which R 2/3 give no meaning to),
+                     \*     cfnoise (/CF /StmF /StrF present), len40 (V 1 with /Length 40 written out)
           PwPairs,   \* set of <<user password class, owner password class | "same">>
           Tried,     \* password classes tried by the reader
           Items      \* universe of item records; ItemsOf(cfg) selects those a configuration contains
@@ -45,6 +47,8 @@ AllDev == {"AESKeepsPadding",            \* decrypt_aes128/256 return the PKCS#7
                                          \* whole entry instead of defaulting to 0 - it only feeds the per-object key
            "DecipherResultDropped",      \* getobj keeps the parsed object and drops what decipher_all RETURNS: an indirect
                                          \* object that is itself a string (immutable) keeps its ciphertext
+           "EmFlagAllRevisions",         \* the ff ff ff ff of "EncryptMetadata false" enters the file key for every revision
+           "NfcShortcut",                \* R6: SASLprep skips its NFKC step for a string that is NFC-normalised already
            "V4LengthFromDict",           \* V4: key length taken from the top-level /Length (meaningful only for V 2/3)
            "TruncateCharsNotBytes"}      \* R5/R6: password cut to 127 characters before encoding instead of 127 bytes after
 ASSUME \A D \in DevSets : D \subseteq AllDev
@@ -96,10 +100,14 @@ PwInfo(p) ==
     [] p = "B31" -> [ch |-> 31, l1 |-> 31,  u8 |-> 31,  p32 |-> "-",   p127 |-> "-"]
     [] p = "B32" -> [ch |-> 32, l1 |-> 32,  u8 |-> 32,  p32 |-> "B32", p127 |-> "-"]
     [] p = "B33" -> [ch |-> 33, l1 |-> 33,  u8 |-> 33,  p32 |-> "B32", p127 |-> "-"]
+    [] p = "q"  -> [ch |-> 14,  l1 |-> 14,  u8 |-> 14,  p32 |-> "-",   p127 |-> "-"]      \* "pass2wordIX-fi"
+    [] p = "q2" -> [ch |-> 12,  l1 |-> -1,  u8 |-> 19,  p32 |-> "-",   p127 |-> "-"]      \* the same, spelled with compatibility
+                                                   \* characters (fullwidth p, superscript two, ROMAN NUMERAL NINE, ligature fi)
     [] OTHER    -> [ch |-> 5,   l1 |-> 5,   u8 |-> 5,   p32 |-> "-",   p127 |-> "-"]      \* a b w c: short ASCII
 
 \* RFC 4013 on the classes: n2 normalises to n, s maps to nothing, c is prohibited
-Sasl(p) == CASE p = "n2" -> "n" [] p = "s" -> "e" [] p = "c" -> "BAD" [] OTHER -> p
+\* (the normalisation is NFKC: compatibility characters are folded - q2 becomes q - whether or not the string is NFC)
+Sasl(p) == CASE p = "n2" -> "n" [] p = "q2" -> "q" [] p = "s" -> "e" [] p = "c" -> "BAD" [] OTHER -> p
 
 Prep(R, p) ==
   IF R <= 4 THEN          \* PDFDocEncoding; the first 32 BYTES count (algorithm 2 step a: pad or truncate to 32)
@@ -186,6 +194,8 @@ Init ==
   /\ cfg \in Configs
   /\ Dev \in DevSets
   /\ \E pp \in PwPairs : upw = pp[1] /\ opw = pp[2]
+  \* a document can only be written with passwords that have a prepared form in its revision
+  /\ Prep(cfg.R, upw) # "BAD" /\ Prep(cfg.R, IF opw = "same" THEN upw ELSE opw) # "BAD"
   /\ tried \in Tried
   /\ item \in ItemsOf(cfg)
   /\ phase = "select" /\ handler = "none" /\ pwb = "-" /\ key = NoKey /\ outcome = "pending"
@@ -201,6 +211,9 @@ Fail(exc, d) == /\ outcome' = exc /\ phase' = "done" /\ blame' = blame \cup d
 \* for V 5 the key is 256 bits: the entry is noise there
 TopLen(c) == CASE c.dv = "len40" -> 40 [] c.dv = "len64" -> 64 [] c.dv = "nolen" -> 0 [] OTHER -> c.keylen
 V4Len == IF "V4LengthFromDict" \in Dev /\ TopLen(cfg) # 0 THEN TopLen(cfg) ELSE 128
+
+\* does ff ff ff ff enter the file key?  (algorithm 2 step f: revision 4 or greater, metadata not encrypted)
+RdEmf == (cfg.R >= 4 /\ ~cfg.em) \/ ("EmFlagAllRevisions" \in Dev /\ cfg.R < 4 /\ cfg.dv = "emfalse")
 
 \* _initialize_password: registry lookup by V, supported_revisions, init_params
 ASelectHandler ==
@@ -223,16 +236,17 @@ AEncodePassword ==
      THEN Fail("PDFValueError", {"SaslprepErrorEscapes"})
      ELSE IF cfg.R = 6 /\ tried = "s" /\ "SaslprepEmptyIndexError" \in Dev
      THEN Fail("IndexError", {"SaslprepEmptyIndexError"})
-     ELSE LET q == IF "TruncateCharsNotBytes" \in Dev THEN CharCut(cfg.R, tried) ELSE p IN
+     ELSE LET nfc == "NfcShortcut" \in Dev /\ cfg.R = 6 /\ tried = "q2"       \* NFC-normalised, so left as spelled
+              q == IF nfc THEN "unfolded:q2" ELSE IF "TruncateCharsNotBytes" \in Dev THEN CharCut(cfg.R, tried) ELSE p IN
           /\ pwb' = q
-          /\ blame' = (IF q # p THEN blame \cup {"TruncateCharsNotBytes"} ELSE blame)
+          /\ blame' = (IF nfc THEN blame \cup {"NfcShortcut"} ELSE IF q # p THEN blame \cup {"TruncateCharsNotBytes"} ELSE blame)
+                       \cup (IF RdEmf /\ cfg.R < 4 THEN {"EmFlagAllRevisions"} ELSE {})
                        \cup (IF handler = "V4" /\ V4Len # 128 THEN {"V4LengthFromDict"} ELSE {})
           /\ phase' = IF q = "BAD" THEN "reject" ELSE IF handler = "V5" THEN "auth_owner5" ELSE "auth_user"
           /\ UNCHANGED <<cfg, Dev, upw, opw, tried, item, handler, key, outcome, perms, cur, val, calls>>
 
 \* what the reader reads back from the Encrypt dictionary
 RdNB == IF cfg.R = 2 THEN 5 ELSE (IF handler = "V4" THEN V4Len ELSE cfg.keylen) \div 8   \* V4.init_params: length = 128
-RdEmf == cfg.R >= 4 /\ ~cfg.em
 TryUser(p) == LET k == Key234(cfg.R, p, StoredO(cfg), cfg.perms, IdTerm(cfg), RdEmf, RdNB)   \* compute_encryption_key
               IN IF UOf(cfg.R, k, IdTerm(cfg)) = StoredU(cfg) THEN k ELSE NoKey               \* verify_encryption_key
 
@@ -389,6 +403,8 @@ AuthExcuse ==
   \/ blame = {"ImplicitIdentityKeyError"} /\ outcome = "KeyError"
   \/ blame = {"TruncateCharsNotBytes"} /\ outcome = "PDFPasswordIncorrect"
   \/ blame = {"V4LengthFromDict"} /\ outcome = "PDFPasswordIncorrect"
+  \/ blame = {"EmFlagAllRevisions"} /\ outcome = "PDFPasswordIncorrect"
+  \/ blame = {"NfcShortcut"} /\ outcome = "PDFPasswordIncorrect"
 ItemExcuse ==
   \/ blame = {"AESKeepsPadding"} /\ val.enc = <<>> /\ val.spur = 0 /\ val.pad
   \/ blame = {"StreamDictNotDeciphered"} /\ LayerCount(val) = 1 /\ val.spur = 0 /\ ~val.pad
